@@ -245,8 +245,9 @@ def layout(toks, rng, style):
             elif style == 'space':
                 sep = ' '
             else:
-                k = rng.randrange(8)
-                sep = [' ', '  ', '\n', '\t', ' // c "x" */ ( \n', ' /* c \n // */ ', '\r\n', ' \n  '][k]
+                k = rng.randrange(12)
+                sep = [' ', '  ', '\n', '\t', ' // c "x" */ ( \n', ' /* c \n // */ ', '\r\n', ' \n  ',
+                       '/***/', ' /* a **/ ', '/** doc ***/', '/*/ * / ** /* ****/'][k]      # block comments closed after runs of stars of either parity
             out.append(sep)
         out.append(t)
     return ''.join(out)
